@@ -29,7 +29,8 @@ THEOREMS = ["C11_exec_vs_sem", "C11_run_script", "C11_machine_is_fold", "C11_fue
             "C11_limit_never_ends", "C11_limit_never_ends_for", "C11_limit_constant", "C11_limit_exec",
             "C11_limit_for_exec", "C11_defaults_fill", "C11_defaults_given", "C11_defaults_missing",
             "C11_defaults_valueless", "C11_extra_args_ignored", "C11_defaults_exec", "C11_defaults_entry_exec",
-            "C11_extra_args_exec"]
+            "C11_extra_args_exec", "C11_return_anywhere", "C11_return_value", "C11_return_from_for", "C11_return_exec",
+            "C11_scope_reads", "C11_scope_call_exec", "C11_scope_value_exec", "C11_scope_block_exec"]
 DRIVERS = ["script", "core"]
 RULE = ("programs of 2..7 statements over: leaf commands (notes c d e f g a b with lengths, rests, o/l/v/q state commands), PRINT of 1..3 "
         "integer expressions, INT declarations with and without initialiser, assignments, X++ / X--, IF with and without ELSE (conditions = "
